@@ -121,8 +121,25 @@ def showGlyphRead (data : List Nat) : String :=
       | none => "err"
       | some v => "C " ++ showComposite v
 
+/-- write-fonts `SimpleGlyph::from_table_ref` on a parsed simple glyph: the contours -/
+def showOwned (data : List Nat) : String :=
+  match i16At data 0 with
+  | none => "err"
+  | some nc =>
+    if nc < 0 then (if (readComposite data).isSome then "n/a" else "err") else
+    match readSimple data with
+    | none => "err"
+    | some v =>
+      match contoursOf 0 v.endPts v.points with
+      | none => "trap"
+      | some cs => s!"{joinNats (cs.map List.length)} | {showPoints cs.flatten}"
+
 def handle (cmd : String) (args : List String) : Option String :=
   match cmd with
+  | "g.owned" =>
+    match args with
+    | [h] => (parseHex? h).map showOwned
+    | _ => none
   | "g.write" => (runAll pGlyph args).map (fun g => showWrite (writeGlyph g))
   | "g.read" =>
     match args with
